@@ -171,6 +171,7 @@ pub fn property() -> Property {
         rule: "keys of 8..56 random bytes (and extreme byte patterns) x messages of 0..4096 bytes (64 KiB thorough): Physis encrypt/decrypt compared block by block with a textbook 16-round Blowfish whose P/S tables are computed at run time from the hexadecimal expansion of pi (Machin formula over a private bigint), keyed with the first 8 key bytes, on little-endian words of the zero-padded message; decrypt(encrypt(m)) = pad(m); arbitrary bytes decrypted and compared; bytes after the 8th key byte must not matter; Schneier's 34 published ECB vectors enumerated. Non-trivial: message longer than one block whose length is not a multiple of 8. Distinct by hash of key||message.",
         assumptions: &["pi digits self-checked against the first/last table words and Schneier's vectors before use", "tables are private: a wrong table word is detected through ciphertext (each key schedule performs 521*64 table look-ups)"],
         pre: Some(pre),
+        post: None,
         parts: vec![
             Box::new(Part { name: "published-vectors", driver: Driver::Enum(vectors), prop: prop_vector, exhaustive: true }),
             Box::new(Part { name: "random-keys", driver: Driver::Gen(strategy, 3_000, 60_000), prop: prop, exhaustive: false }),
